@@ -74,52 +74,66 @@ def make_items(g, init, prop, seed, max_paths=None, max_len=30, variants=1):
     return items, n_edges
 
 
-def run_cfgs(prop, cfgs, seed, max_paths=None, variants=9):
-    """cfgs: list of cfg names. Returns (violations, coverage dict)."""
-    t0 = time.time()
+def _explore_one(cfg, seed):
+    sim = None
+    if isinstance(cfg, (tuple, list)):
+        cfg, sim = cfg
+    if sim:   # random simulation with larger constants: behaviours of `depth` steps
+        res, g, init = explore(cfg, simulate=f"num={sim['num']}", depth=sim["depth"], seed=seed + 1)
+        name = cfg + f"[simulate num={sim['num']} depth={sim['depth']}]"
+    else:
+        res, g, init = explore(cfg)
+        name = cfg
+    return name, sim, res, g, init
+
+
+def run_cfgs(prop, cfgs, seed, max_paths=None, variants=9, side_jobs=()):
+    """cfgs: list of cfg names or (cfg, {"num":…, "depth":…}) for simulation. All TLC runs (and the optional
+    `side_jobs`, callables such as the Ideal-design run) start concurrently; behaviours are replayed as they arrive.
+    Returns (violations, coverage dict, results of side_jobs)."""
+    from concurrent.futures import ThreadPoolExecutor
     states = trans = 0
     viol = []
     per_cfg = {}
     samples = []
     total_paths = total_steps = total_edges = covered_edges = 0
     acts = {}
-    for cfg in cfgs:
-        sim = None
-        if isinstance(cfg, (tuple, list)):
-            cfg, sim = cfg
-        if sim:   # random simulation with larger constants: behaviours of `depth` steps
-            res, g, init = explore(cfg, simulate=f"num={sim['num']}", depth=sim["depth"], seed=seed + 1)
-            cfg = cfg + f"[simulate num={sim['num']} depth={sim['depth']}]"
-            items, n_cov = make_items(g, init, prop, seed, max_paths=None, max_len=sim["depth"] + 1, variants=variants)
-        else:
-            res, g, init = explore(cfg)
-            items, n_cov = make_items(g, init, prop, seed, max_paths=max_paths, variants=variants)
-        states += res.distinct
-        trans += res.generated
-        t1 = time.time()
-        out = pmap(replay_path, items)
-        v = [x for r in out for x in r]
-        viol += v
-        n_steps = sum(len(it["steps"]) for it in items)
-        for it in items:
-            for lab, _ in it["steps"]:
-                acts[lab["act"]] = acts.get(lab["act"], 0) + 1
-        per_cfg[cfg] = {"tlc_distinct_states": res.distinct, "tlc_states_generated": res.generated,
-                        "tlc_depth": res.depth, "graph_edges": len(g.edges), "edges_replayed": n_cov,
-                        "paths": len(items), "steps": n_steps, "tlc_wall_s": round(res.wall_s, 1),
-                        "replay_wall_s": round(time.time() - t1, 1)}
-        total_paths += len(items)
-        total_steps += n_steps
-        total_edges += len(g.edges)
-        covered_edges += n_cov
-        if items:
-            mid = items[len(items) // 2]
-            samples.append({"cfg": cfg, "behaviour": [_short(lab) for lab, _ in mid["steps"]]})
+    with ThreadPoolExecutor(max_workers=max(1, len(cfgs) + len(side_jobs))) as ex:
+        futs = [ex.submit(_explore_one, cfg, seed) for cfg in cfgs]
+        side = [ex.submit(job) for job in side_jobs]
+        for fut in futs:
+            cfg, sim, res, g, init = fut.result()
+            if sim:
+                items, n_cov = make_items(g, init, prop, seed, max_paths=None, max_len=sim["depth"] + 1, variants=variants)
+            else:
+                items, n_cov = make_items(g, init, prop, seed, max_paths=max_paths, variants=variants)
+            states += res.distinct
+            trans += res.generated
+            t1 = time.time()
+            out = pmap(replay_path, items)
+            v = [x for r in out for x in r]
+            viol += v
+            n_steps = sum(len(it["steps"]) for it in items)
+            for it in items:
+                for lab, _ in it["steps"]:
+                    acts[lab["act"]] = acts.get(lab["act"], 0) + 1
+            per_cfg[cfg] = {"tlc_distinct_states": res.distinct, "tlc_states_generated": res.generated,
+                            "tlc_depth": res.depth, "graph_edges": len(g.edges), "edges_replayed": n_cov,
+                            "paths": len(items), "steps": n_steps, "tlc_wall_s": round(res.wall_s, 1),
+                            "replay_wall_s": round(time.time() - t1, 1)}
+            total_paths += len(items)
+            total_steps += n_steps
+            total_edges += len(g.edges)
+            covered_edges += n_cov
+            if items:
+                mid = items[len(items) // 2]
+                samples.append({"cfg": cfg, "behaviour": [_short(lab) for lab, _ in mid["steps"]]})
+        side_results = [f.result() for f in side]
     cov = {"states": states, "transitions": trans, "traces_validated_against_impl": total_paths,
            "steps_compared": total_steps, "graph_edges": total_edges, "edges_replayed": covered_edges,
            "exhaustive": covered_edges == total_edges, "actions_replayed": acts, "per_config": per_cfg,
            "samples": samples}
-    return viol, cov
+    return viol, cov, side_results
 
 
 def _short(lab):
